@@ -120,7 +120,7 @@ def execute(World, scen, prefix, mode, visited, stats, want_digests=False, max_l
 
 
 def explore(World, scen, mode="full", bound=0, seed=0, max_exec=None, deadline=None,
-            det_every=400, max_viol_keys=3, stop_on_violation=True):
+            det_every=400, max_viol_keys=3, stop_on_violation=True, known_keys=()):
     """Explore every execution of the closed scenario.
 
     mode 'full'     every enabled event at every choice point, pruning on visited fingerprints
@@ -158,7 +158,10 @@ def explore(World, scen, mode="full", bound=0, seed=0, max_exec=None, deadline=N
                     "choices": list(ctl.choices),
                     "actions": list(ctl.actions),
                 }
-        if viols and (stop_on_violation or len(viols) >= max_viol_keys):
+        # a violation that is a listed known finding does not end the exploration of the cell: everything
+        # else in the cell is still explored, and any other violation is still reported
+        fresh_viols = [k for k in viols if k[1] not in known_keys]
+        if fresh_viols and (stop_on_violation or len(fresh_viols) >= max_viol_keys):
             complete = False
             break
         # determinism safety net: replaying the same schedule twice must give the same
